@@ -35,9 +35,26 @@ from common import f2h, h2f
 INF = float('inf')
 STACKS = c01.STACKS
 COND_CAP = 1000
-# generous limits (defaults are 100 outer / 100..1000 inner): see `limits()`
-ALM_ITER = 400
+# generous limits (library defaults: 100 outer / 100 (PANOC, ZeroFPR, PANTR) resp. 1000 (FISTA) inner
+# iterations; the largest outer count observed on a converging run is ≈ 40): see `limits()`
+ALM_ITER = 100
+FIRST_ORDER = ('panoc-noop', 'zerofpr-noop', 'fista')
 G = {'cert': {}, 'bound_ops': [], 'stats': {}, 'lean_calls': 0}
+
+
+def build_harness():
+    """harness/c02_run.cpp + the library TUs of the working tree (same set as the C01 harness)."""
+    srcs = [s for s in C.repo_lib_sources() if not s.endswith('/util/dl.cpp')]
+    return C.build_exe('c02run', [os.path.join(C.VERIF, 'harness', 'c02_run.cpp')] + srcs)
+
+
+def parse_out(line):
+    r = c01.parse_alm_out(line)
+    for sec in line.split(' ; '):
+        t = sec.split()
+        if t and t[0] == 'G':
+            r['gamma'] = h2f(t[1]); r['backtracks'] = int(t[2]); r['norm_penalty'] = h2f(t[3])
+    return r
 
 
 def stat(k, d=1):
@@ -46,28 +63,59 @@ def stat(k, d=1):
 
 # ------------------------------------------------------------------ parallel front end of the harness
 
-def par_main(exe):
-    """stdin lines -> K harness processes (round robin) -> stdout lines in input order."""
+def run_parallel(exe, lines):
+    """K harness processes (round robin over the lines) → outputs in input order."""
     from concurrent.futures import ThreadPoolExecutor
-    lines = [l.rstrip('\n') for l in sys.stdin if l.strip()]
-    K = max(1, min(C.NPROC, 12, len(lines)))
+    if not lines:
+        return []
+    K = max(1, min(C.NPROC, 16, len(lines)))
     chunks = [lines[k::K] for k in range(K)]
 
     def run(ch):
         r = subprocess.run([exe], input='\n'.join(ch) + '\n', stdout=subprocess.PIPE,
                            stderr=subprocess.PIPE, text=True)
         out = r.stdout.splitlines()
+        got = len(out)
         while len(out) < len(ch):        # a crash must stay attributed to its own input
             out.append(f'exception harness-crash rc={r.returncode} {r.stderr[-120:].strip()!r}'
-                       if len(out) == len(r.stdout.splitlines()) else 'exception harness-not-run')
+                       if len(out) == got else 'exception harness-not-run')
         return out
     with ThreadPoolExecutor(max_workers=K) as ex:
         outs = list(ex.map(run, chunks))
     res = [None] * len(lines)
     for k in range(K):
         res[k::K] = outs[k]
-    sys.stdout.write('\n'.join(res) + ('\n' if res else ''))
+    return res
+
+
+def par_main(exe, cache_file=None):
+    """Front end handed to common.standard_check as "the harness": stdin lines → stdout lines.
+    Lines already evaluated by `main` (same process tree, same executable; see `prerun`) are answered
+    from its result file — common.run_lines has a fixed 600 s budget for the whole stream, the
+    thorough tier needs more."""
+    import json
+    lines = [l.rstrip('\n') for l in sys.stdin if l.strip()]
+    cache = {}
+    if cache_file and os.path.exists(cache_file):
+        cache = json.load(open(cache_file))
+    todo = [l for l in lines if l not in cache]
+    for l, o in zip(todo, run_parallel(exe, todo)):
+        cache[l] = o
+    sys.stdout.write('\n'.join(cache[l] for l in lines) + ('\n' if lines else ''))
     return 0
+
+
+def prerun(exe, tier, n_inst):
+    """Evaluate the op stream standard_check is going to generate (same rng seed), without the global
+    timeout; → path of the result file."""
+    import json, random, tempfile
+    rng = random.Random(C.seed() * 1000003 + (17 if tier == 'thorough' else 0))
+    ops = gen_ops_factory(tier)(rng, n_inst)
+    outs = run_parallel(exe, ops)
+    fd, path = tempfile.mkstemp(prefix='c02_results_', suffix='.json', dir=C.CACHE)
+    with os.fdopen(fd, 'w') as f:
+        json.dump(dict(zip(ops, outs)), f)
+    return path
 
 
 # ------------------------------------------------------------------ generator
@@ -238,13 +286,12 @@ def gen_instance(rng, *, inner=False, n=None, m=None):
 
 
 def limits(stack):
-    """Generous iteration limits (the only non-default parameters besides the tolerances).
-    First-order stacks without a quasi-Newton direction (plain proximal gradient `*-noop`, FISTA) get
-    proportionally more: their iteration count scales with the condition number of the augmented
-    Lagrangian (≤ 10³ · penalty), that of the quasi-Newton stacks does not."""
-    if stack in ('fista',) or stack.endswith('-noop'):
-        return 2000000
-    return 50000
+    """Generous inner iteration limits (the only non-default parameters besides the tolerances and the
+    Hessian-product capability of the problem).  Quasi-Newton / trust-region stacks: 50 000 (500 x the
+    default; they need a few hundred).  First-order stacks without curvature information (plain
+    proximal gradient `*-noop`, FISTA): 1 000 000 — their iteration count is proportional to the
+    condition number of the augmented Lagrangian (≤ 10³ · (1 + penalty·‖A‖²/λmax))."""
+    return 1000000 if stack in FIRST_ORDER else 50000
 
 
 def instance_ops(p, pid, stacks, mode, tol, dtol):
@@ -258,7 +305,7 @@ def instance_ops(p, pid, stacks, mode, tol, dtol):
         kv['tol'] = f2h(tol); kv['dtol'] = f2h(dtol)
         kv['almiter'] = str(ALM_ITER); kv['maxiter'] = str(limits(st))
         # NewtonTR's default is exact Hessian-vector products (finite_diff = false): provide them
-        kv['hess'] = '1'; kv['fd'] = '0'
+        kv['hess'] = '1'
         kv['mu'] = f'{p["mu"].numerator}/{p["mu"].denominator}'; kv['Bk'] = str(p['Bk'])
         kv['pid'] = pid; kv['fam'] = p['fam']
         ops.append(S.Op(kv).line())
@@ -594,7 +641,7 @@ def monitor(op_line, out_line, st):
     tag = f'[{stack}/{mode} n={op["n"]} m={op["m"]} {op.get("fam", "")}]'
     if not out_line.startswith('A '):
         return f'{tag} harness: {out_line[:160]}'
-    r = c01.parse_alm_out(out_line)
+    r = parse_out(out_line)
     stat('runs'); stat(f'status_{r["status"]}')
     x, y = r['x'], r['y']
     cert = certificate(op, x, y)
@@ -611,10 +658,32 @@ def monitor(op_line, out_line, st):
     if r['status'] != 'Converged':
         xs = cert['xs']
         dist = max([abs(float(Fr(a) - b)) for a, b in zip(x, xs)] + [0.0]) if all(map(math.isfinite, x)) else INF
-        return (f'{tag} status {r["status"]} (not Converged) on a well-posed strongly convex QP: '
-                f'outer={r["outer"]} inner_iters={r["inner_iters"]} inner_failures={r["inner_fail"]} '
-                f'eps={r["eps"]:.3g} delta={r["delta"]:.3g} tol={tol:g} dtol={dtol:g} '
-                f'limits: alm {ALM_ITER}, inner {limits(stack)}; |x-x*|_inf={dist:.3g}')
+        msg = (f'{tag} status {r["status"]} (not Converged) on a well-posed strongly convex QP: '
+               f'outer={r["outer"]} inner_iters={r["inner_iters"]} inner_failures={r["inner_fail"]} '
+               f'eps={r["eps"]:.3g} delta={r["delta"]:.3g} tol={tol:g} dtol={dtol:g} '
+               f'limits: alm {ALM_ITER}, inner {limits(stack)}; |x-x*|_inf={dist:.3g} '
+               f'final_gamma={r.get("gamma", float("nan")):.3g} penalty={r.get("norm_penalty", 0):.3g}')
+        # Rounding-induced step-size collapse (finding, see known-findings.json): in exact arithmetic
+        # the quadratic-upper-bound test cannot fail once L ≥ L_ψ, so the backtracking never takes γ
+        # below 0.95/(2 L_ψ); L_ψ ≤ L_ref := (μ + tr BᵀB) + Σ_max ‖A‖_F².  A final γ more than 2¹⁰
+        # below 1/L_ref therefore proves ≥ 9 spurious (rounding) failures of that test.
+        L_ref = float(qp.mu + sum(a * a for row in qp.B for a in row))
+        if mode == 'alm' and qp.m:
+            L_ref += r.get('norm_penalty', 0.0) * math.sqrt(qp.m) * float(sum(a * a for row in qp.A for a in row))
+        g = r.get('gamma', float('nan'))
+        if r['status'] in ('NoProgress', 'MaxIter', 'MaxTime') and g == g and 0 < g * L_ref < 2.0 ** -10:
+            stat('known_stepsize_collapse')
+            return (msg + f'  [step size collapsed: gamma*L_ref = {g * L_ref:.3g} < 2^-10]',
+                    f'C02:stepsize-collapse:{stack.split("-")[0]}')
+        # First-order stacks (no curvature information): linear rate ∝ cond(ψ_Σ); with the penalties ALM
+        # reaches this exceeds any fixed budget on part of the class (finding, see known-findings.json).
+        # Recognised narrowly: the budget was really spent inside inner solves that were still converging.
+        if (stack in FIRST_ORDER and r['status'] == 'MaxIter' and r['inner_iters'] >= limits(stack)
+                and (mode == 'inner' or r['inner_fail'] >= 1) and dist <= 1e-3):
+            stat('known_first_order_budget')
+            return (msg + '  [first-order stack exhausted its iteration budget while converging]',
+                    f'C02:first-order-iteration-budget:{stack.split("-")[0]}')
+        return msg
     if any(not math.isfinite(a) for a in x + y):
         return f'{tag} Converged with non-finite x / y'
     X, Y = [Fr(a) for a in x], [Fr(a) for a in y]
@@ -656,7 +725,7 @@ def monitor(op_line, out_line, st):
 def nontrivial(op_line, out_line):
     if not out_line.startswith('A '):
         return None
-    r = c01.parse_alm_out(out_line)
+    r = parse_out(out_line)
     if r['status'] == 'Converged' and r['inner_iters'] >= 1:
         return hash(op_line)
     return None
@@ -687,20 +756,34 @@ def extra_stage(rep, broken, exe, tier):
             rep.note(f'  {k}: {v}')
 
 
+N_QUICK, N_THOROUGH = 40, 400
+
+
 def main(argv):
     if len(argv) > 2 and argv[1] == '--par':
-        return par_main(argv[2])
+        return par_main(argv[2], argv[3] if len(argv) > 3 else None)
     tier = C.tier_from_argv(argv)
-    exe, log = c01.build_alm_harness()
-    par = [sys.executable, os.path.abspath(__file__), '--par', exe] if exe else None
+    exe, log = build_harness()
+    par, results = None, None
+    if exe:
+        results = prerun(exe, tier, N_THOROUGH if tier == 'thorough' else N_QUICK)
+        par = [sys.executable, os.path.abspath(__file__), '--par', exe, results]
+    try:
+        return run_check(argv, tier, par, log)
+    finally:
+        if results and os.path.exists(results):
+            os.unlink(results)
+
+
+def run_check(argv, tier, par, log):
     return C.standard_check(
         'C02', argv,
         gen_scripts=['gen_c15.py', 'gen_c06.py'],      # Props/C02 imports Props/C01 (InBox / InNormalCone / Certified)
         modules=['Alpaqa.Props.C02'], driver=None, extra_drivers=['drv_c02'],
         extra_sources=['Alpaqa/Model/C02.lean', 'Alpaqa/Proofs/C02.lean', 'Driver/C02.lean'],
-        harness_name='almrun', harness_sources=[], harness_builder=lambda: (par, log),
+        harness_name='c02run', harness_sources=[], harness_builder=lambda: (par, log),
         gen_ops=gen_ops_factory(tier), monitor=monitor, nontrivial=nontrivial, extra_stage=extra_stage,
-        n_quick=40, n_thorough=400, search_factor=2,
+        n_quick=N_QUICK, n_thorough=N_THOROUGH, search_factor=2,
         level='proof',
         trusted_base=[
             'Lean 4.33 kernel + Mathlib (axioms: propext, Classical.choice, Quot.sound)',
